@@ -69,6 +69,14 @@ pub fn run(cli: &Cli, rep: &Report) {
         vec![Seg::P(7, 280_000), Seg::C(20_000)],
         vec![Seg::R(70_000), Seg::D(65_000, 5000)],
     ];
+    // matches at the maximum distance at every position across window moves (see C01)
+    if !asan {
+        for (d, total) in [(4096usize, 300_000usize), (65536, 450_000)] {
+            for k in [0usize, 1, 16] {
+                shapes.push(vec![Seg::R(d - k), Seg::D(d - k, total)]);
+            }
+        }
+    }
     for tail in 0..9usize {
         // finishing with 0..8 bytes after a long match
         shapes.push(vec![Seg::C(1000), Seg::D(500, 400), Seg::L((0..tail as u8).collect())]);
